@@ -358,7 +358,7 @@ class Gen:
             return self._terminal(consume)
         if kind == 'pylit':
             # a container literal in inline Python: must be a fresh object on every evaluation
-            return ['py', r.choice(['[]', '{}', '[1, 2]', '{"k": []}', '[[]]'])]
+            return ['py', r.choice(['[]', '{}', '[1, 2]', '{"k": []}', '[[]]', 'envprobe()', 'envprobe()'])]
         if kind == 'ref':
             c = self._ref_candidates(rank, leftmost, consume)
             if c:
@@ -588,8 +588,10 @@ def gen_child(rng, parent_gen, hook_p=0.4, ignore=None, allow_super=True, force=
         nm = 'N%d_%d' % (g.tagn, j)
         rank = rng.uniform(0.5, max(1.0, max((i['rank'] for i in g.table.values() if i['rank'] < 1e8), default=1.0)) + 1)
         new_names.append((nm, rank))
+    parent_names = tuple(sorted(n for n, i in parent_gen.table.items() if i['kind'] in ('rule', 'class'))) if allow_super else ()
     for nm, rank in sorted(new_names, key=lambda x: -x[1]):
-        body = g.expr(rank, True, True, 1)
+        # (a new rule may mention super.R as well, whether or not this grammar overrides R)
+        body = g.expr(rank, True, True, 1, parent_names if rng.random() < 0.5 else ())
         g.table[nm] = {'rank': rank, 'nullable': nullable(body, g._env()), 'kind': 'rule'}
         items.append({'k': 'rule', 'name': nm, 'expr': body})
     for nm in sorted(overridden, key=lambda n: -g.table[n]['rank']):
@@ -746,7 +748,8 @@ def tour_root(rng, named):
         {'k': 'rule', 'name': 'Ls', 'params': ['x', 's'], 'expr': ['sep', ['ref', 'x'], ['ref', 's']]},
         {'k': 'rule', 'name': 'Kw', 'params': ['w'], 'expr': ['where', ['ref', 'Name'], 'lambda v: v == w']},
         {'k': 'rule', 'name': 'start', 'expr': ['sept', ['ref', 'Stmt'], ['lit', ';']]},
-        {'k': 'rule', 'name': 'Stmt', 'expr': hook('h1', ['alt', ['ref', 'Assign'], ['ref', 'Call'], ['ref', 'Ex']])},
+        {'k': 'rule', 'name': 'Stmt', 'expr': hook('h1', ['alt', ['ref', 'Assign'], ['ref', 'Call'],
+                                                           ['seq', ['ref', 'Ex'], ['py', 'envprobe()']]])},
         {'k': 'class', 'name': 'Call', 'fields': [
             {'name': 'name', 'expr': ['ref', 'Name'], 'mod': ''},
             {'name': 'args', 'expr': ['call', 'Tw', ['call', 'Ls', ['ref', 'Ex'], ['lit', ',']]], 'mod': ''}]},
@@ -757,7 +760,9 @@ def tour_root(rng, named):
         {'k': 'rule', 'name': 'Ex', 'expr': ['optable', ['ref', 'Atom'], [
             ['mixfix', [['left', ['right', ['lit', '('], ['ref', 'Ex']], ['lit', ')']]]],
             ['prefix', [['lit', '-']]], ['left', [['lit', '*']]], ['left', [['lit', '+']]]]]},
-        {'k': 'rule', 'name': 'Atom', 'expr': hook('h2', ['alt', ['hookv', 'h3', ['ref', 'Num']], ['ref', 'Call'], ['ref', 'Name'], ['ref', 'StrL']])},
+        {'k': 'rule', 'name': 'Atom', 'expr': hook('h2', ['alt', ['hookv', 'h3', ['ref', 'Num']], ['ref', 'Call'], ['ref', 'Name'], ['ref', 'StrL'], ['ref', 'Lst']])},
+        # a second call site passing the same literal "," (and "(" via Tw) as an argument
+        {'k': 'rule', 'name': 'Lst', 'expr': ['left', ['right', ['lit', '['], ['call', 'Ls', ['ref', 'Atom'], ['lit', ',']]], ['lit', ']']]},
         {'k': 'rule', 'name': 'Num', 'expr': ['apply', ['re', '[0-9]+'], 'int']},
         {'k': 'rule', 'name': 'Name', 'expr': hook('h4', ['re', '[a-z]+'])},
         {'k': 'rule', 'name': 'StrL', 'expr': ['re', '"[^"]*"']},
@@ -768,9 +773,9 @@ def tour_root(rng, named):
     else:
         items.append({'k': 'ignore', 'expr': ['re', ' +' if ig == 'anon' else '[ \\n]+']})
     g = Gen(rng, features=['classes', 'sep', 'apply', 'where', 'template', 'optable', 'regex', 'lookahead', 'longest'])
-    g.lits = ['(', ')', ',', ';', '+', '=']
+    g.lits = ['(', ')', ',', ';', '+', '=', '[', ']']
     g.res = ['[a-z]+', '[0-9]+']
-    order = ['start', 'Stmt', 'Assign', 'Call', 'Ex', 'Atom', 'Num', 'Name', 'StrL']
+    order = ['start', 'Stmt', 'Assign', 'Call', 'Ex', 'Atom', 'Lst', 'Num', 'Name', 'StrL']
     for n in ('Tw', 'Ls', 'Kw'):
         g.table[n] = {'rank': -1.0, 'nullable': n == 'Ls', 'kind': 'template'}
     kinds = {it['name']: it['k'] for it in items if it['k'] in ('rule', 'class')}
